@@ -104,6 +104,14 @@ class DisplayOracle:
             oracle.hook_depth -= 1
             oracle.hooked = oracle.hook_depth > 0
             oracle.popped_by.add(oracle._tid())
+            # a non-transient display stops *now*: its frame rows become permanent output at this
+            # instant (pure bookkeeping, no bytes) -- not when the harness later gets to end_op(),
+            # by which time another thread may already have started the display again
+            st = oracle.stages
+            if st and st[0][0] == "freeze":
+                oracle._adopt(oracle.committed + nonblank(oracle.frame or []), None, "freeze")
+                oracle.full_ok = False
+                del st[0]
             return r
 
         console.push_render_hook = push_
@@ -240,6 +248,19 @@ class DisplayOracle:
         self._hooked_at_begin[tid] = self.hooked
         self.pushed_by.discard(tid)
         self.popped_by.discard(tid)
+        if self.tracker is not None:
+            kinds = [st[0] for st in self.stages]
+            if "print" in kinds:
+                k = "print"
+            elif "final" in kinds or "erase" in kinds or "freeze" in kinds or (isinstance(op, str) and op.startswith("stop")):
+                k = "stop"
+            elif isinstance(op, str) and op.startswith("start"):
+                k = "start"
+            elif "frame" in kinds:
+                k = "refresh"
+            else:
+                k = "other"
+            self.tracker.set_kind(tid, k)
 
     def span_begin(self):
         """Sequence number at which the operation (or, for a helper thread, the refresh cycle)
@@ -465,6 +486,8 @@ class SpanTracker:
         self.sim = sim
         self.open = {}  # tid -> seq at which its span opened
         self.entry = {}  # tid -> seq at which its current writing operation was entered
+        self.kind = {}  # tid -> kind of its current operation: print | refresh | stop | start | other
+        # (threads the harness does not drive -- rich's refresh thread -- only ever refresh)
         self.in_stop = set()
         self.events = []  # (seq, tid, kind)
         self.installed = False
@@ -503,7 +526,11 @@ class SpanTracker:
         return me.tid if me is not None else -1
 
     def note(self, kind):
-        self.events.append((self.sim.event(kind), self._tid(), kind))
+        tid = self._tid()
+        self.events.append((self.sim.event(kind), tid, kind, self.kind.get(tid, "refresh")))
+
+    def set_kind(self, tid, kind):
+        self.kind[tid] = kind
 
     def hook_eval(self):
         tid = self._tid()
@@ -514,13 +541,14 @@ class SpanTracker:
         tid = self._tid()
         self.in_stop.add(tid)
         seq = self.sim.event("stop-enter")
-        self.events.append((seq, tid, "stop-enter"))
+        self.kind[tid] = "stop"
+        self.events.append((seq, tid, "stop-enter", "stop"))
         self.open.setdefault(tid, seq)
 
     def stop_end(self):
         tid = self._tid()
         self.in_stop.discard(tid)
-        self.events.append((self.sim.event("stop-exit"), tid, "stop-exit"))
+        self.events.append((self.sim.event("stop-exit"), tid, "stop-exit", "stop"))
         self.open.pop(tid, None)
 
     def start_event(self):
@@ -533,22 +561,32 @@ class SpanTracker:
         self.entry[tid] = self.sim.event("op-enter")
 
     def overlap(self, seq, tid):
-        """Is the write (seq, tid) explained by overlapping critical spans?  Call before write_done."""
+        """Is the write (seq, tid) explained by overlapping critical spans?  Call before write_done.
+
+        Only print/log can be on the wrong side of this finding: Console.print evaluates the hook,
+        renders and writes without holding the display lock from the first to the last of these
+        steps.  Every other writing operation -- refresh(), update(refresh=True), add_task, reset,
+        the refresh thread, start(), and stop() up to the point where it pops the hook -- holds the
+        display lock from hook evaluation to write, so two of them can never interleave on the
+        unchanged tree (a refresh after the hook is popped writes nothing).  An overlap therefore
+        explains a violation only if at least one of the two overlapping operations is a print/log.
+        """
         if not self.installed:
             return False
+        mine = self.kind.get(tid, "refresh")
         cands = [x for x in (self.open.get(tid), self.entry.get(tid)) if x is not None]
         s = min(cands) if cands else None
         if s is not None:
-            for eseq, etid, kind in self.events:
-                if etid != tid and s < eseq < seq:
+            for eseq, etid, kind, okind in self.events:
+                if etid != tid and s < eseq < seq and (mine == "print" or okind == "print"):
                     return True
         for otid in self.open:
-            if otid != tid:
+            if otid != tid and (mine == "print" or self.kind.get(otid, "refresh") == "print"):
                 return True
         return False
 
     def write_done(self, seq, tid):
-        self.events.append((seq, tid, "write"))
+        self.events.append((seq, tid, "write", self.kind.get(tid, "refresh")))
         if tid not in self.in_stop:
             self.open.pop(tid, None)
             self.entry.pop(tid, None)
